@@ -40,6 +40,9 @@ type clientView struct {
 	delay     uint64
 	heights   [numStates]uint64
 	installed map[clienttypes.Height]int
+	// the consensus state's own Height field: redundant with the key it is stored under and never validated (a create /
+	// upgrade / toggle proposal stores whatever it carries), so the verdict must not depend on it
+	consField map[clienttypes.Height]clienttypes.Height
 	cs        exported.ClientState
 	store     sdk.KVStore
 }
@@ -324,7 +327,7 @@ func trunc(s string, n int) string {
 }
 
 func newClient(rng *rand.Rand, typ, cid string) *clientView {
-	c := &clientView{typ: typ, name: typ + "-" + cid, installed: map[clienttypes.Height]int{}}
+	c := &clientView{typ: typ, name: typ + "-" + cid, installed: map[clienttypes.Height]int{}, consField: map[clienttypes.Height]clienttypes.Height{}}
 	if typ == "eth" {
 		c.delay = uint64(pick(rng, []int{0, 0, 1, 1, 2, 3, 6, 12, 64}))
 	} else {
@@ -357,7 +360,12 @@ func newClient(rng *rand.Rand, typ, cid string) *clientView {
 	c.heights[stEmptyA] = c.heights[stOld] - 2
 	c.heights[stForged] = 0 // never installed
 	for _, st := range []int{stOld, stBoundary, stNotPassed, stAboveHead, stNoA, stEmptyA} {
-		c.installed[clienttypes.NewHeight(0, c.heights[st])] = st
+		h := clienttypes.NewHeight(0, c.heights[st])
+		c.installed[h] = st
+		c.consField[h] = h
+		if rng.Intn(3) == 0 {
+			c.consField[h] = []clienttypes.Height{{}, clienttypes.NewHeight(0, c.heights[stOld]), clienttypes.NewHeight(0, c.head), clienttypes.NewHeight(0, c.head+7), clienttypes.NewHeight(1, c.heights[st])}[rng.Intn(5)]
+		}
 	}
 	return c
 }
@@ -389,9 +397,9 @@ func install(ctx sdk.Context, n *core.Node, w *world, c *clientView) {
 	for h, st := range c.installed {
 		root := w.states[st].root
 		if c.typ == "eth" {
-			ck.SetClientConsensusState(ctx, c.name, h, &ethtypes.ConsensusState{Timestamp: 1641081600, Height: h, Root: root[:]})
+			ck.SetClientConsensusState(ctx, c.name, h, &ethtypes.ConsensusState{Timestamp: 1641081600, Height: c.consField[h], Root: root[:]})
 		} else {
-			ck.SetClientConsensusState(ctx, c.name, h, &bsctypes.ConsensusState{Timestamp: 1641081600, Height: h, Root: root[:]})
+			ck.SetClientConsensusState(ctx, c.name, h, &bsctypes.ConsensusState{Timestamp: 1641081600, Height: c.consField[h], Root: root[:]})
 		}
 	}
 }
